@@ -3,6 +3,7 @@ package props
 import (
 	"fmt"
 	"go/token"
+	"sort"
 	"strings"
 
 	"golang.org/x/tools/go/ssa"
@@ -191,7 +192,600 @@ func replacementOf(p *core.Prog, c *ssa.Call) (subject ssa.Value, pairs []replPa
 	return nil, nil, "not a replace-all call"
 }
 
-// checkQuotedForm verifies parts = const · replaceAll(subject) · const against the lexer.
+// ---- symbolic strings ----
+//
+// The value returned by the two functions is evaluated into a small algebra of string expressions over the
+// input parameter: constants, the input, input[k:], input[:k], the "after" result of strings.CutPrefix,
+// replace-all (Replace n<0, ReplaceAll, Replacer, Join(Split(x, old), new)), ShellEscape(x) and concatenation.
+// Package helpers are expanded first (inlined view); a value merged by a phi at the return is split into the cases
+// of its incoming edges, each with the path facts that hold on that edge.
+
+type sstr struct {
+	kind  string // const | input | suffix | prefix | cutafter | repl | esc | concat | unknown
+	s     string // const text; cutafter: the prefix; unknown: description
+	k     int64
+	sub   *sstr
+	pairs []replPair
+	parts []*sstr
+}
+
+func (x *sstr) String() string {
+	switch x.kind {
+	case "const":
+		return fmt.Sprintf("%q", x.s)
+	case "input":
+		return "s"
+	case "suffix":
+		return fmt.Sprintf("s[%d:]", x.k)
+	case "prefix":
+		return fmt.Sprintf("s[:%d]", x.k)
+	case "cutafter":
+		return fmt.Sprintf("CutPrefix(s,%q)", x.s)
+	case "repl":
+		return fmt.Sprintf("replaceAll(%v,%v)", x.sub, x.pairs)
+	case "esc":
+		return fmt.Sprintf("ShellEscape(%v)", x.sub)
+	case "concat":
+		var ps []string
+		for _, p := range x.parts {
+			ps = append(ps, p.String())
+		}
+		return strings.Join(ps, " + ")
+	}
+	return "?(" + x.s + ")"
+}
+
+type sevalCtx struct {
+	p      *core.Prog
+	input  *ssa.Parameter
+	esc    *ssa.Function       // ShellEscape (source function); nil while evaluating ShellEscape itself
+	choice map[*ssa.Phi]int    // phi → chosen incoming edge
+}
+
+func (c *sevalCtx) eval(v ssa.Value, depth int) *sstr {
+	unk := func(f string, a ...any) *sstr { return &sstr{kind: "unknown", s: fmt.Sprintf(f, a...)} }
+	if depth > 12 {
+		return unk("too deep")
+	}
+	v = sx.Unspill(v)
+	switch x := v.(type) {
+	case *ssa.Const:
+		if s, ok := sx.ConstString(x); ok {
+			return &sstr{kind: "const", s: s}
+		}
+	case *ssa.Parameter:
+		if x == c.input {
+			return &sstr{kind: "input"}
+		}
+	case *ssa.Phi:
+		if k, ok := c.choice[x]; ok {
+			return c.eval(x.Edges[k], depth+1)
+		}
+		return unk("value merged from several paths: %s", sx.ValPath(x))
+	case *ssa.BinOp:
+		if x.Op == token.ADD {
+			l, r := c.eval(x.X, depth+1), c.eval(x.Y, depth+1)
+			return &sstr{kind: "concat", parts: []*sstr{l, r}}
+		}
+	case *ssa.Slice:
+		if sx.Unspill(x.X) == ssa.Value(c.input) && x.Max == nil {
+			lo, hi := int64(0), int64(-1)
+			okLo, okHi := true, true
+			if x.Low != nil {
+				lo, okLo = sx.ConstInt(x.Low)
+			}
+			if x.High != nil {
+				hi, okHi = sx.ConstInt(x.High)
+			}
+			switch {
+			case okLo && x.High == nil:
+				if lo == 0 {
+					return &sstr{kind: "input"}
+				}
+				return &sstr{kind: "suffix", k: lo}
+			case okLo && lo == 0 && okHi:
+				return &sstr{kind: "prefix", k: hi}
+			}
+		}
+	case *ssa.Extract:
+		if call, ok := x.Tuple.(*ssa.Call); ok && sx.CalleeName(call) == "strings.CutPrefix" && x.Index == 0 {
+			if pre, ok := sx.ConstString(call.Call.Args[1]); ok && sx.Unspill(call.Call.Args[0]) == ssa.Value(c.input) {
+				return &sstr{kind: "cutafter", s: pre}
+			}
+		}
+	case *ssa.Call:
+		if callee := sx.StaticCallee(x); callee != nil && c.esc != nil && sameFn(callee, c.esc) {
+			return &sstr{kind: "esc", sub: c.eval(x.Call.Args[0], depth+1)}
+		}
+		name := sx.CalleeName(x)
+		if name == "strings.Join" {
+			// Join(Split(x, old), new) replaces every occurrence of a non-empty old by new
+			if sp, ok := sx.Unspill(x.Call.Args[0]).(*ssa.Call); ok && sx.CalleeName(sp) == "strings.Split" {
+				o, ok1 := sx.ConstString(sp.Call.Args[1])
+				n, ok2 := sx.ConstString(x.Call.Args[1])
+				if ok1 && ok2 && o != "" {
+					return &sstr{kind: "repl", sub: c.eval(sp.Call.Args[0], depth+1), pairs: []replPair{{o, n}}}
+				}
+			}
+			return unk("strings.Join of something other than strings.Split(x, constant)")
+		}
+		if subject, pairs, why := replacementOf(c.p, x); why == "" {
+			return &sstr{kind: "repl", sub: c.eval(subject, depth+1), pairs: pairs}
+		} else if name == "strings.Replace" || name == "strings.ReplaceAll" || name == "(*strings.Replacer).Replace" {
+			return unk("%s", why)
+		}
+		return unk("result of %s", short(name))
+	}
+	return unk("%s", sx.ValPath(v))
+}
+
+// flat flattens concatenations, drops empty constants and merges adjacent constants.
+func (x *sstr) flat() []*sstr {
+	var out []*sstr
+	var walk func(y *sstr)
+	walk = func(y *sstr) {
+		if y.kind == "concat" {
+			for _, p := range y.parts {
+				walk(p)
+			}
+			return
+		}
+		if y.kind == "const" {
+			if y.s == "" {
+				return
+			}
+			if n := len(out); n > 0 && out[n-1].kind == "const" {
+				out[n-1] = &sstr{kind: "const", s: out[n-1].s + y.s}
+				return
+			}
+		}
+		out = append(out, y)
+	}
+	walk(x)
+	return out
+}
+
+// phiCases enumerates the choices of the phis (of the return's block) that the returned value depends on; each case
+// names, per phi, the incoming edge. At most 8 cases.
+func phiCases(ret *ssa.Return) []map[*ssa.Phi]int {
+	var phis []*ssa.Phi
+	seen := map[ssa.Value]bool{}
+	var walk func(v ssa.Value, d int)
+	walk = func(v ssa.Value, d int) {
+		if v == nil || seen[v] || d > 10 {
+			return
+		}
+		seen[v] = true
+		switch x := sx.Unspill(v).(type) {
+		case *ssa.Phi:
+			if x.Block() == ret.Block() {
+				phis = append(phis, x)
+			}
+		case *ssa.BinOp:
+			walk(x.X, d+1)
+			walk(x.Y, d+1)
+		case *ssa.Call:
+			for _, a := range x.Call.Args {
+				walk(a, d+1)
+			}
+		case *ssa.Slice:
+			walk(x.X, d+1)
+		case *ssa.Extract:
+			walk(x.Tuple, d+1)
+		}
+	}
+	walk(ret.Results[0], 0)
+	if len(phis) == 0 {
+		return []map[*ssa.Phi]int{{}}
+	}
+	// phis of one block choose the same incoming edge
+	var out []map[*ssa.Phi]int
+	for k := range ret.Block().Preds {
+		m := map[*ssa.Phi]int{}
+		for _, ph := range phis {
+			m[ph] = k
+		}
+		out = append(out, m)
+	}
+	return out
+}
+
+// quotedFormOf recognises open · replaceAll(subject) · close in a flattened expression.
+func quotedFormOf(parts []*sstr) (open string, mid *sstr, closeS string, why string) {
+	if len(parts) != 3 {
+		var ps []string
+		for _, p := range parts {
+			ps = append(ps, p.String())
+		}
+		return "", nil, "", fmt.Sprintf("result is a concatenation of %d parts (%s), expected opening constant · escaped input · closing constant", len(parts), strings.Join(ps, " + "))
+	}
+	if parts[0].kind != "const" || parts[2].kind != "const" || parts[1].kind != "repl" {
+		return "", nil, "", "result is not of the form constant + replaceAll(input) + constant: " + parts[0].String() + " + " + parts[1].String() + " + " + parts[2].String()
+	}
+	return parts[0].s, parts[1], parts[2].s, ""
+}
+
+// checkQuoted runs open · replaceAll(·, pairs) · close through the lexer.
+func checkQuoted(open string, pairs []replPair, closeS string) (bool, string) {
+	o := shLex(shU, open, true)
+	if o.End != shS || o.Literal != "" || len(o.Problems) > 0 {
+		return false, fmt.Sprintf("opening constant %q does not leave the shell inside single quotes with an empty word (state %v, literal %q, %v)", open, o.End, o.Literal, o.Problems)
+	}
+	// inside single quotes every byte except ' is literal (lexer definition): the only byte needing replacement is '
+	hasQuote := false
+	seen := map[byte]bool{}
+	for _, pr := range pairs {
+		if len(pr.old) != 1 {
+			return false, fmt.Sprintf("replacement of the multi-byte string %q: overlap with the quote replacement cannot be excluded", pr.old)
+		}
+		if seen[pr.old[0]] {
+			return false, fmt.Sprintf("byte %q replaced twice", pr.old)
+		}
+		seen[pr.old[0]] = true
+		if pr.old == "'" {
+			hasQuote = true
+		}
+		m := shLex(shS, pr.new, false)
+		if m.End != shS || m.Literal != pr.old || len(m.Problems) > 0 {
+			return false, fmt.Sprintf("replacement %q → %q: read from inside single quotes the shell ends in state %v with literal %q %v — it must return to single quotes having contributed exactly %q", pr.old, pr.new, m.End, m.Literal, m.Problems, pr.old)
+		}
+	}
+	if !hasQuote {
+		return false, "the single quote itself is not replaced: an embedded ' would end the quoting"
+	}
+	cl := shLex(shS, closeS, false)
+	if cl.End != shU || cl.Literal != "" || len(cl.Problems) > 0 {
+		return false, fmt.Sprintf("closing constant %q does not end the quoted word cleanly (state %v, literal %q, %v)", closeS, cl.End, cl.Literal, cl.Problems)
+	}
+	return true, fmt.Sprintf("%q · replaceAll(input, %v) · %q: lexer returns to Unquoted with the word equal to the input", open, pairs, closeS)
+}
+
+// startsWithFacts: the CFG edges of fn on which the input is known to start with pre — strings.HasPrefix true edges,
+// strings.CutPrefix found edges, and (for a two-byte prefix) the pair of byte tests s[0]==pre[0], s[1]==pre[1].
+func startsWithFacts(fn *ssa.Function, input *ssa.Parameter, pre string) (whole map[sx.Edge]bool, perByte []map[sx.Edge]bool) {
+	whole = map[sx.Edge]bool{}
+	perByte = make([]map[sx.Edge]bool, len(pre))
+	for i := range perByte {
+		perByte[i] = map[sx.Edge]bool{}
+	}
+	ifEdges := func(v ssa.Value, whenTrue bool, into map[sx.Edge]bool) {
+		if v.Referrers() == nil {
+			return
+		}
+		for _, u := range *v.Referrers() {
+			switch u := u.(type) {
+			case *ssa.If:
+				idx := 1
+				if whenTrue {
+					idx = 0
+				}
+				into[sx.Edge{From: u.Block(), Idx: idx}] = true
+			case *ssa.UnOp:
+				if u.Op == token.NOT {
+					for _, uu := range *u.Referrers() {
+						if iff, ok := uu.(*ssa.If); ok {
+							idx := 0
+							if whenTrue {
+								idx = 1
+							}
+							into[sx.Edge{From: iff.Block(), Idx: idx}] = true
+						}
+					}
+				}
+			}
+		}
+	}
+	sx.Instrs(fn, func(in ssa.Instruction) {
+		switch x := in.(type) {
+		case *ssa.Call:
+			switch sx.CalleeName(x) {
+			case "strings.HasPrefix":
+				if s, ok := sx.ConstString(x.Call.Args[1]); ok && s == pre && sx.Unspill(x.Call.Args[0]) == ssa.Value(input) {
+					ifEdges(x, true, whole)
+				}
+			case "strings.CutPrefix":
+				if s, ok := sx.ConstString(x.Call.Args[1]); ok && s == pre && sx.Unspill(x.Call.Args[0]) == ssa.Value(input) {
+					for _, u := range *x.Referrers() {
+						if e, ok := u.(*ssa.Extract); ok && e.Index == 1 {
+							ifEdges(e, true, whole)
+						}
+					}
+				}
+			}
+		case *ssa.BinOp:
+			if x.Op != token.EQL && x.Op != token.NEQ {
+				return
+			}
+			k, isC := sx.ConstInt(x.Y)
+			var idxV ssa.Value
+			var base ssa.Value
+			switch lk := x.X.(type) {
+			case *ssa.Lookup:
+				base, idxV = lk.X, lk.Index
+			case *ssa.Index:
+				base, idxV = lk.X, lk.Index
+			}
+			if !isC || base == nil || sx.Unspill(base) != ssa.Value(input) {
+				return
+			}
+			pos, isP := sx.ConstInt(idxV)
+			if !isP || pos < 0 || int(pos) >= len(pre) || byte(k) != pre[pos] {
+				return
+			}
+			ifEdges(x, x.Op == token.EQL, perByte[pos])
+		}
+	})
+	return
+}
+
+// builderForm recognises a result assembled in a strings.Builder around one loop over the input:
+//
+//	T1 (split loop)   rest := s; for { pos := strings.IndexByte(rest, c); if pos < 0 { break };
+//	                  b.WriteString(rest[:pos]); b.WriteString(NEW); rest = rest[pos+1:] }; b.WriteString(rest)
+//	T2 (byte loop)    for i := 0; i < len(s); i++ { switch s[i] { case c: b.WriteString(NEW); default: b.WriteByte(s[i]) } }
+//
+// with constant writes before and after. Both are replace-all: T1 by its loop invariant (output = open ·
+// replaceAll(s minus rest), rest a suffix of s), T2 byte by byte (the body is evaluated for each of the 256 byte
+// values). Returns open, the replacement pairs, close.
+func builderForm(p *core.Prog, fn *ssa.Function, input *ssa.Parameter, ret *ssa.Return) (open string, pairs []replPair, closeS string, why string) {
+	strCall, ok := sx.Unspill(ret.Results[0]).(*ssa.Call)
+	if !ok || sx.CalleeName(strCall) != "(*strings.Builder).String" {
+		return "", nil, "", "not a strings.Builder result"
+	}
+	sb, ok := sx.Args(strCall)[0].(*ssa.Alloc)
+	if !ok {
+		return "", nil, "", "the builder is not a local variable"
+	}
+	type write struct {
+		in    ssa.Instruction
+		konst string
+		isK   bool
+		val   ssa.Value // non-constant argument
+		byteW bool
+	}
+	var writes []write
+	for _, u := range *sb.Referrers() {
+		c, isCall := u.(*ssa.Call)
+		if !isCall {
+			if _, isDbg := u.(*ssa.DebugRef); isDbg {
+				continue
+			}
+			return "", nil, "", "the builder is used other than through its methods"
+		}
+		switch sx.CalleeName(c) {
+		case "(*strings.Builder).String", "(*strings.Builder).Grow", "(*strings.Builder).Len", "(*strings.Builder).Cap":
+		case "(*strings.Builder).WriteByte":
+			a := sx.Args(c)[1]
+			if k, ok := sx.ConstInt(a); ok {
+				writes = append(writes, write{in: c, konst: string([]byte{byte(k)}), isK: true, byteW: true})
+			} else {
+				writes = append(writes, write{in: c, val: a, byteW: true})
+			}
+		case "(*strings.Builder).WriteString":
+			a := sx.Args(c)[1]
+			if k, ok := sx.ConstString(a); ok {
+				writes = append(writes, write{in: c, konst: k, isK: true})
+			} else {
+				writes = append(writes, write{in: c, val: a})
+			}
+		default:
+			return "", nil, "", "builder method " + short(sx.CalleeName(c)) + " is not modelled"
+		}
+	}
+	hs := sx.LoopHeaders(fn)
+	if len(hs) != 1 {
+		return "", nil, "", fmt.Sprintf("%d loops around the builder, expected one", len(hs))
+	}
+	h := hs[0]
+	body := sx.LoopBody(h)
+	// order writes by position: before the loop (dominating the header), inside, after
+	var pre, in, post []write
+	for _, w := range writes {
+		b := w.in.Block()
+		switch {
+		case body[b]:
+			in = append(in, w)
+		case b.Dominates(h):
+			pre = append(pre, w)
+		default:
+			post = append(post, w)
+		}
+	}
+	byPos := func(ws []write) {
+		sort.SliceStable(ws, func(i, j int) bool {
+			bi, bj := ws[i].in.Block(), ws[j].in.Block()
+			if bi == bj {
+				return indexIn(ws[i].in) < indexIn(ws[j].in)
+			}
+			return bi.Dominates(bj)
+		})
+	}
+	byPos(pre)
+	byPos(post)
+	byPos(in)
+	for _, w := range pre {
+		if !w.isK {
+			return "", nil, "", "a non-constant write precedes the loop"
+		}
+		open += w.konst
+	}
+	// T1
+	if len(in) == 2 && !in[0].isK && in[1].isK && !in[0].byteW && len(post) >= 1 && !post[0].isK {
+		rest, isPhi := sx.Unspill(post[0].val).(*ssa.Phi)
+		seg, isSl := in[0].val.(*ssa.Slice)
+		if isPhi && rest.Block() == h && isSl && seg.X == ssa.Value(rest) && seg.Low == nil && seg.High != nil {
+			pos, isCall := seg.High.(*ssa.Call)
+			old := ""
+			if isCall {
+				switch sx.CalleeName(pos) {
+				case "strings.IndexByte":
+					if k, ok := sx.ConstInt(pos.Call.Args[1]); ok && pos.Call.Args[0] == ssa.Value(rest) {
+						old = string([]byte{byte(k)})
+					}
+				case "strings.Index":
+					if k, ok := sx.ConstString(pos.Call.Args[1]); ok && pos.Call.Args[0] == ssa.Value(rest) {
+						old = k
+					}
+				}
+			}
+			okPhi := old != "" && len(rest.Edges) == 2
+			if okPhi {
+				initOK, stepOK := false, false
+				for _, e := range rest.Edges {
+					if sx.Unspill(e) == ssa.Value(input) {
+						initOK = true
+					}
+					if sl, ok := e.(*ssa.Slice); ok && sl.X == ssa.Value(rest) && sl.High == nil {
+						if b, ok := sl.Low.(*ssa.BinOp); ok && b.Op == token.ADD && b.X == ssa.Value(pos) {
+							if k, ok := sx.ConstInt(b.Y); ok && int(k) == len(old) {
+								stepOK = true
+							}
+						}
+					}
+				}
+				okPhi = initOK && stepOK
+			}
+			// the loop is left exactly when the delimiter is not found
+			exitOK := false
+			if iff, ok := pos.Block().Instrs[len(pos.Block().Instrs)-1].(*ssa.If); ok && isCall {
+				if b, ok := iff.Cond.(*ssa.BinOp); ok && b.X == ssa.Value(pos) {
+					if k, ok := sx.ConstInt(b.Y); ok && k == 0 && (b.Op == token.LSS || b.Op == token.GEQ) {
+						exitOK = true
+					}
+					if k, ok := sx.ConstInt(b.Y); ok && k == -1 && (b.Op == token.EQL || b.Op == token.NEQ) {
+						exitOK = true
+					}
+				}
+			}
+			if okPhi && exitOK {
+				for _, w := range post[1:] {
+					if !w.isK {
+						return "", nil, "", "a non-constant write follows the remainder"
+					}
+					closeS += w.konst
+				}
+				return open, []replPair{{old, in[1].konst}}, closeS, ""
+			}
+		}
+		return "", nil, "", "the loop around the builder is not the recognised split-at-delimiter loop"
+	}
+	// T2
+	bound, okTrip := sx.LoopTrip(h)
+	if okTrip {
+		lc, isLen := sx.Unspill(bound).(*ssa.Call)
+		if !isLen || !isBuiltin(lc, "len") || sx.Unspill(lc.Call.Args[0]) != ssa.Value(input) {
+			okTrip = false
+		}
+	}
+	if !okTrip {
+		return "", nil, "", "the loop around the builder is neither the split-at-delimiter loop nor a loop over every byte of the input"
+	}
+	for _, w := range post {
+		if !w.isK {
+			return "", nil, "", "a non-constant write follows the loop"
+		}
+		closeS += w.konst
+	}
+	isCur := func(v ssa.Value) bool { // s[i] with i the loop counter
+		var base, idx ssa.Value
+		switch x := v.(type) {
+		case *ssa.Lookup:
+			base, idx = x.X, x.Index
+		case *ssa.Index:
+			base, idx = x.X, x.Index
+		default:
+			return false
+		}
+		if sx.Unspill(base) != ssa.Value(input) {
+			return false
+		}
+		// the counter tested by the header (phi, or phi+1 in the rotated range form)
+		iff := h.Instrs[len(h.Instrs)-1].(*ssa.If)
+		return idx == iff.Cond.(*ssa.BinOp).X
+	}
+	inW := map[ssa.Instruction]write{}
+	for _, w := range in {
+		inW[w.in] = w
+	}
+	for b := 0; b < 256; b++ {
+		var out []byte
+		blk := h.Succs[0]
+		steps := 0
+		for blk != h && steps < 64 {
+			steps++
+			for _, ins := range blk.Instrs {
+				if w, ok := inW[ins]; ok {
+					switch {
+					case w.isK:
+						out = append(out, w.konst...)
+					case w.byteW && isCur(w.val):
+						out = append(out, byte(b))
+					default:
+						return "", nil, "", "the loop writes something other than constants and the current byte"
+					}
+				}
+			}
+			switch t := blk.Instrs[len(blk.Instrs)-1].(type) {
+			case *ssa.Jump:
+				blk = blk.Succs[0]
+			case *ssa.If:
+				cmp, ok := t.Cond.(*ssa.BinOp)
+				if !ok || !isCur(cmp.X) {
+					return "", nil, "", "a branch in the loop does not test the current byte against a constant"
+				}
+				k, isC := sx.ConstInt(cmp.Y)
+				if !isC {
+					return "", nil, "", "a branch in the loop does not test the current byte against a constant"
+				}
+				var res bool
+				switch cmp.Op {
+				case token.EQL:
+					res = int64(b) == k
+				case token.NEQ:
+					res = int64(b) != k
+				case token.LSS:
+					res = int64(b) < k
+				case token.LEQ:
+					res = int64(b) <= k
+				case token.GTR:
+					res = int64(b) > k
+				case token.GEQ:
+					res = int64(b) >= k
+				default:
+					return "", nil, "", "unmodelled comparison in the loop"
+				}
+				if res {
+					blk = blk.Succs[0]
+				} else {
+					blk = blk.Succs[1]
+				}
+			default:
+				return "", nil, "", "the loop body leaves the loop"
+			}
+			if !body[blk] && blk != h {
+				return "", nil, "", "the loop body leaves the loop"
+			}
+		}
+		if blk != h {
+			return "", nil, "", "the loop body does not return to the loop head"
+		}
+		if string(out) != string([]byte{byte(b)}) {
+			pairs = append(pairs, replPair{string([]byte{byte(b)}), string(out)})
+		}
+	}
+	return open, pairs, closeS, ""
+}
+
+func indexIn(in ssa.Instruction) int {
+	for i, x := range in.Block().Instrs {
+		if x == in {
+			return i
+		}
+	}
+	return -1
+}
+
+// checkQuotedForm (kept for callers outside this file) verifies parts = const · replaceAll(subject) · const against the lexer.
 func checkQuotedForm(p *core.Prog, parts []ssa.Value, subjectOK func(ssa.Value) bool) (bool, string) {
 	if len(parts) != 3 {
 		return false, fmt.Sprintf("result is a concatenation of %d parts, expected opening constant · escaped input · closing constant", len(parts))
@@ -249,89 +843,178 @@ func runC16(p *core.Prog, r *core.Report) {
 	r.NotDecided = append(r.NotDecided, "agreement of real dash/bash with the POSIX lexer model (no shell is run)")
 	r.Trusted = append(r.Trusted, "POSIX XCU 2.2: inside single quotes every character except ' is literal", "strings.Replace(n<0)/ReplaceAll/Replacer replace every occurrence")
 
-	se := p.Func("util/strutil", "ShellEscape")
-	st := p.Func("util/strutil", "ShellEscapeExceptTilde")
-	if se == nil || st == nil {
+	seSrc := p.Func("util/strutil", "ShellEscape")
+	stSrc := p.Func("util/strutil", "ShellEscapeExceptTilde")
+	if seSrc == nil || stSrc == nil {
 		r.Fail("C16-R1", "anchors", "-", "ShellEscape / ShellEscapeExceptTilde not found")
 		return
 	}
+	// helpers of the package are expanded; inside ShellEscapeExceptTilde a call of ShellEscape stays a call (its result
+	// is what C16-R1/R2 establish)
+	se := p.Inl(seSrc)
+	st := p.Inl(stSrc, seSrc)
+	var refOpen, refClose string
+	var refPairs []replPair
+	refOK := false
+	nRet := 0
 	for i, ret := range sx.Returns(se) {
-		c := fmt.Sprintf("ShellEscape return #%d", i)
-		ok, d := checkQuotedForm(p, concatParts(ret.Results[0]), func(v ssa.Value) bool { return v == ssa.Value(se.Params[0]) })
-		shape := ok || !strings.Contains(d, "expected opening") && !strings.Contains(d, "not of the form")
-		r.Check(shape, "C16-R1", c+": shape", p.Pos(ret.Pos()), "constant · replaceAll(s) · constant", d)
-		if shape {
-			r.Check(ok, "C16-R2", c+": quoting automaton", p.Pos(ret.Pos()), d, d)
-		}
-	}
-	// R3
-	nPrefix, nPlain := 0, 0
-	for i, ret := range sx.Returns(st) {
-		c := fmt.Sprintf("ShellEscapeExceptTilde return #%d", i)
-		parts := concatParts(ret.Results[0])
-		isEsc := func(v ssa.Value) (*ssa.Call, bool) {
-			call, ok := v.(*ssa.Call)
-			return call, ok && sx.StaticCallee(call) == se
-		}
-		if len(parts) == 1 {
-			call, ok := isEsc(parts[0])
-			ok = ok && call.Call.Args[0] == ssa.Value(st.Params[0])
-			nPlain++
-			r.Check(ok, "C16-R3", c+": plain fallback", p.Pos(ret.Pos()), "ShellEscape(input)", "the fallback does not return ShellEscape(input) unchanged")
-			continue
-		}
-		nPrefix++
-		okP := len(parts) == 2
-		var why string
-		if okP {
-			pre, isC := sx.ConstString(parts[0])
-			call, isE := isEsc(parts[1])
-			switch {
-			case !isC || !isE:
-				okP, why = false, "result is not constant-prefix + ShellEscape(remainder): "+sx.ValPath(ret.Results[0])
-			default:
-				sl, isS := call.Call.Args[0].(*ssa.Slice)
-				lo := int64(-1)
-				if isS {
-					lo, _ = sx.ConstInt(sl.Low)
-				}
-				if !isS || sl.X != ssa.Value(st.Params[0]) || sl.High != nil || lo != int64(len(pre)) {
-					okP, why = false, fmt.Sprintf("the remainder passed to ShellEscape is not input[%d:]", len(pre))
-					break
-				}
-				// the return is reachable only through HasPrefix(input, pre) == true
-				cut := sx.Cut{Edges: map[sx.Edge]bool{}}
-				sx.Instrs(st, func(in ssa.Instruction) {
-					hp, ok := in.(*ssa.Call)
-					if !ok || sx.CalleeName(hp) != "strings.HasPrefix" || hp.Call.Args[0] != ssa.Value(st.Params[0]) {
-						return
-					}
-					if s, ok := sx.ConstString(hp.Call.Args[1]); !ok || s != pre {
-						return
-					}
-					for _, u := range *hp.Referrers() {
-						if iff, ok := u.(*ssa.If); ok {
-							cut.Edges[sx.Edge{From: iff.Block(), Idx: 0}] = true
-						}
-					}
-				})
-				if len(cut.Edges) == 0 || !sx.MustPass(st, nil, ret, cut) {
-					okP, why = false, fmt.Sprintf("the prefix %q is left unquoted on a path where strings.HasPrefix(input, %q) is not established", pre, pre)
-					break
-				}
-				if pre != "~/" {
-					okP, why = false, fmt.Sprintf("the unquoted prefix is %q, the property allows only \"~/\"", pre)
-					break
-				}
-				lx := shLex(shU, pre, true)
-				if lx.End != shU || len(lx.Problems) != 1 || lx.Problems[0] != "tilde-prefix at word start" {
-					okP, why = false, fmt.Sprintf("unquoted prefix %q: %v", pre, lx.Problems)
+		for ci, choice := range phiCases(ret) {
+			c := fmt.Sprintf("ShellEscape return #%d", i)
+			if ci > 0 {
+				c += fmt.Sprintf(" case %d", ci)
+			}
+			nRet++
+			ctx := &sevalCtx{p: p, input: se.Params[0], choice: choice}
+			expr := ctx.eval(ret.Results[0], 0)
+			open, mid, closeS, why := quotedFormOf(expr.flat())
+			if why == "" && mid.sub.kind != "input" {
+				why = "the string being escaped is " + mid.sub.String() + ", not the input"
+			}
+			if why != "" {
+				// a result assembled in a strings.Builder around a loop over the input
+				if o, prs, cl, w2 := builderForm(p, se, se.Params[0], ret); w2 == "" {
+					open, mid, closeS, why = o, &sstr{kind: "repl", sub: &sstr{kind: "input"}, pairs: prs}, cl, ""
+				} else if w2 != "not a strings.Builder result" {
+					why = w2
 				}
 			}
-		} else {
-			why = "result is not constant-prefix + ShellEscape(remainder): " + sx.ValPath(ret.Results[0])
+			r.Check(why == "", "C16-R1", c+": shape", p.Pos(ret.Pos()), "constant · replaceAll(s) · constant", why)
+			if why == "" {
+				ok, d := checkQuoted(open, mid.pairs, closeS)
+				r.Check(ok, "C16-R2", c+": quoting automaton", p.Pos(ret.Pos()), d, d)
+				if ok {
+					refOpen, refPairs, refClose, refOK = open, mid.pairs, closeS, true
+				}
+			}
 		}
-		r.Check(okP, "C16-R3", c+": tilde prefix", p.Pos(ret.Pos()), "\"~/\" + ShellEscape(input[2:]) under HasPrefix(input, \"~/\")", why)
+	}
+	if nRet == 0 {
+		r.Fail("C16-R1", "ShellEscape returns", p.FuncPos(se), "no return found")
+	}
+	// R3
+	input := st.Params[0]
+	const pre = "~/"
+	whole, perByte := startsWithFacts(st, input, pre)
+	nPrefix, nPlain := 0, 0
+	samePairs := func(a, b []replPair) bool {
+		if len(a) != len(b) {
+			return false
+		}
+		for i := range a {
+			if a[i] != b[i] {
+				return false
+			}
+		}
+		return true
+	}
+	for i, ret := range sx.Returns(st) {
+		for ci, choice := range phiCases(ret) {
+			c := fmt.Sprintf("ShellEscapeExceptTilde return #%d", i)
+			if ci > 0 {
+				c += fmt.Sprintf(" case %d", ci)
+			}
+			// the point up to which path facts are collected: the return, or the end of the chosen incoming path
+			var at ssa.Instruction = ret
+			var via *sx.Edge
+			for ph, k := range choice {
+				pred := ph.Block().Preds[k]
+				at = pred.Instrs[len(pred.Instrs)-1]
+				for si, sb := range pred.Succs {
+					if sb == ph.Block() {
+						via = &sx.Edge{From: pred, Idx: si}
+					}
+				}
+				break
+			}
+			holds := func(e map[sx.Edge]bool) bool {
+				if len(e) == 0 {
+					return false
+				}
+				if via != nil && e[*via] {
+					return true
+				}
+				return sx.MustPass(st, nil, at, sx.Cut{Edges: e})
+			}
+			startsWith := holds(whole)
+			if !startsWith && len(perByte) == len(pre) {
+				startsWith = true
+				for _, e := range perByte {
+					if !holds(e) {
+						startsWith = false
+					}
+				}
+			}
+			ctx := &sevalCtx{p: p, input: input, esc: seSrc, choice: choice}
+			parts := ctx.eval(ret.Results[0], 0).flat()
+			// normal form: optional unquoted prefix, then the escaped subject
+			var prefix *sstr
+			var subject *sstr
+			why := ""
+			switch {
+			case len(parts) == 1 && parts[0].kind == "esc":
+				subject = parts[0].sub
+			case len(parts) == 2 && parts[1].kind == "esc" && (parts[0].kind == "const" || parts[0].kind == "prefix"):
+				prefix, subject = parts[0], parts[1].sub
+			case len(parts) == 3 && parts[0].kind == "const" && parts[1].kind == "repl" && parts[2].kind == "const":
+				// the quoting written out (a helper shared with ShellEscape): it must be ShellEscape's own verified form
+				switch {
+				case !refOK:
+					why = "the quoting is written out but ShellEscape's own form was not verified"
+				case !strings.HasSuffix(parts[0].s, refOpen) || parts[2].s != refClose || !samePairs(parts[1].pairs, refPairs):
+					why = "the quoting written out here (" + parts[0].String() + " … " + parts[2].String() + ") differs from ShellEscape's"
+				default:
+					subject = parts[1].sub
+					if pf := strings.TrimSuffix(parts[0].s, refOpen); pf != "" {
+						prefix = &sstr{kind: "const", s: pf}
+					}
+				}
+			default:
+				var ps []string
+				for _, pt := range parts {
+					ps = append(ps, pt.String())
+				}
+				why = "result is neither ShellEscape(input) nor prefix + ShellEscape(remainder): " + strings.Join(ps, " + ")
+			}
+			if why != "" {
+				nPrefix++ // counted as a (failed) prefix return so that the summary below does not add a second report
+				r.Fail("C16-R3", c+": shape", p.Pos(ret.Pos()), why)
+				continue
+			}
+			// what the subject is on this path
+			subjIsInput := subject.kind == "input" || (subject.kind == "cutafter" && subject.s == pre && !startsWith && func() bool {
+				// CutPrefix returns its argument unchanged when the prefix is absent: that is this path iff "found" is false here
+				notFound := map[sx.Edge]bool{}
+				for e := range whole {
+					notFound[sx.Edge{From: e.From, Idx: 1 - e.Idx}] = true
+				}
+				return holds(notFound)
+			}())
+			subjIsRest := (subject.kind == "suffix" && subject.k == int64(len(pre))) || (subject.kind == "cutafter" && subject.s == pre && startsWith)
+			if prefix == nil {
+				nPlain++
+				r.Check(subjIsInput, "C16-R3", c+": plain fallback", p.Pos(ret.Pos()), "ShellEscape(input)", "the fallback does not return ShellEscape(input) unchanged: it escapes "+subject.String())
+				continue
+			}
+			nPrefix++
+			okP, whyP := true, ""
+			switch {
+			case prefix.kind == "const" && prefix.s != pre:
+				okP, whyP = false, fmt.Sprintf("the unquoted prefix is %q, the property allows only %q", prefix.s, pre)
+			case prefix.kind == "prefix" && prefix.k != int64(len(pre)):
+				okP, whyP = false, fmt.Sprintf("the unquoted prefix is input[:%d], the property allows only %q", prefix.k, pre)
+			case !startsWith:
+				okP, whyP = false, fmt.Sprintf("the prefix %q is left unquoted on a path where the input is not known to start with %q", pre, pre)
+			case !subjIsRest:
+				okP, whyP = false, fmt.Sprintf("the remainder passed to ShellEscape is %s, not input[%d:]", subject.String(), len(pre))
+			}
+			if okP {
+				lx := shLex(shU, pre, true)
+				if lx.End != shU || len(lx.Problems) != 1 || lx.Problems[0] != "tilde-prefix at word start" {
+					okP, whyP = false, fmt.Sprintf("unquoted prefix %q: %v", pre, lx.Problems)
+				}
+			}
+			r.Check(okP, "C16-R3", c+": tilde prefix", p.Pos(ret.Pos()), "\"~/\" + ShellEscape(input[2:]) on a path where the input starts with \"~/\"", whyP)
+		}
 	}
 	if nPrefix == 0 || nPlain == 0 {
 		r.Fail("C16-R3", "ShellEscapeExceptTilde has both the prefix and the plain path", p.FuncPos(st), fmt.Sprintf("%d prefix returns, %d plain returns", nPrefix, nPlain))
